@@ -78,6 +78,8 @@ def record_job(job):
                     for o in sorted(ck_begin) if o in ck_done]
     res["dir"] = out["dir"]
     res["name"] = job["name"]
+    ex = [r for r in recs if r["k"] == "exit" and r["i"] == 0]
+    res["steps"] = ex[0]["steps"] if ex else 0
     return res
 
 
@@ -191,12 +193,14 @@ def judge(world, out, rec_ckpts=None):
     recs = out["records"]
     incs = out["incarnations"]
     viol = []
-    fault = world["plan"][0]
+    fault = [f for f in world["plan"] if f["kind"].startswith("kill")][0]
     resume_name = world["scenario"]["kwargs"].get("resume_file", "nested_sampler_resume.pkl")
 
     def v(oracle, detail, key=None):
         viol.append({"oracle": oracle, "key": key or oracle, "detail": detail, "world": world})
 
+    if world.get("optional_kill") and incs and incs[0]["exit"] != 137:
+        return viol, {"skipped": True}
     if not incs or incs[0]["exit"] != 137:
         # the recorded prefix must be reproduced: otherwise harness nondeterminism
         return viol, {"harness_error": {"what": "planned kill did not fire", "exits": [i["exit"] for i in incs],
@@ -311,7 +315,9 @@ def kill_job(job):
     res["aborted"] = []  # exceptions are judged above
     sig = f"{job['name']}|{job['cls']}|{'fresh' if info.get('fresh') else 'resumed'}"
     res["signatures"] = [sig]
-    res["nontrivial"] = [sig]
+    res["nontrivial"] = [] if info.get("skipped") else [sig]
+    if info.get("skipped"):
+        res["probes"]["kill_after_signal_not_reached"] = 1
     if info.get("fresh"):
         res["probes"]["kill_before_first_checkpoint_completed"] = 1
     if info.get("old_fallback"):
@@ -431,6 +437,22 @@ def body(r):
                                                                if k != "weights_snapshots"},
                                 "snapshot": snap, "bytes": byts, "path": cr[0]["path"], "L": L,
                                 "event": wr[0]["e"], "pclass": path_class(cr[0])})
+    # kill while the signal handler is writing its checkpoint (SIGTERM, then SIGKILL after the grace period)
+    for rec, rj in zip(recs, rec_jobs):
+        if rj["world"]["scenario"]["sampler"] != "ns" or not rec.get("finished"):
+            continue
+        steps = rec.get("steps") or 0
+        if steps < 2000:
+            continue
+        for frac in ((0.3, 0.6, 0.9) if tier == "thorough" else (0.6,)):
+            for off, L in ((0, None), (1, None), (2, 0), (2, 1), (2, 4000), (2, None), (3, None), (4, None)):
+                w = dict(rj["world"])
+                w.pop("weights_snapshots", None)
+                w["optional_kill"] = True
+                w["plan"] = [{"inc": 0, "kind": "signal", "signum": 15, "line_event": int(steps * frac)},
+                             {"inc": 0, "kind": "kill_fs_after_signal", "offset": off, "prefix": L}]
+                kjobs.append({"name": rec["name"], "cls": f"handler-ckpt:+{off}{':torn' if L is not None else ''}",
+                              "world": w})
     # determinism self-test: first two kill jobs twice
     st = kjobs[:2]
     a = r.map(kill_job, st, "selftest-a")
